@@ -28,18 +28,17 @@ def dropLeading (p : Char → Bool) : Str → Str
 /-- Rust `str::trim`. -/
 def trim (s : Str) : Str := trimEnd (dropLeading isWhitespace s)
 
-/-- Rust `str::split_whitespace`. -/
-def splitWs : Str → List Str
-  | [] => []
+/-- split at every char satisfying `p` (pieces may be empty) -/
+def splitBy (p : Char → Bool) : Str → List Str
+  | [] => [[]]
   | c :: cs =>
-    if isWhitespace c then splitWs cs
-    else match cs, splitWs cs with
-      | [], _ => [[c]]
-      | d :: _, toks =>
-        if isWhitespace d then [c] :: toks
-        else match toks with
-          | [] => [[c]]
-          | t :: ts => (c :: t) :: ts
+    if p c then [] :: splitBy p cs
+    else match splitBy p cs with
+      | [] => [[c]]
+      | l :: ls => (c :: l) :: ls
+
+/-- Rust `str::split_whitespace`: split at Unicode whitespace, empty pieces dropped. -/
+def splitWs (s : Str) : List Str := (splitBy isWhitespace s).filter (fun t => !t.isEmpty)
 
 /-- `iter().find(|r| r.starts_with(ch))` -/
 def findStarting (ch : Char) : List Str → Option Str
